@@ -15,7 +15,7 @@ pub const DEF: PropDef = PropDef {
     id: "C07",
     run,
     oracle,
-    rule: "cases = conformant histories (C04/C05 plans, V9 count = flowsets, 1..3 packets per call) in which the template of one (protocol, id) X is withheld: every template record for X is removed while its data sets are still encoded under X's first definition, at whatever position the plan puts them (first/middle/last flowset of a packet, first/middle/last packet of a buffer, with template flowsets for other ids around); ids are shared between V9 and IPFIX so X is usually defined for the other protocol. Then: the template is fed to a second parser instance only, the data packet is replayed to the first parser (still unknown there; in one case out of six it is replayed 2..6 times, in one out of fifty 70..300 times in a row - a lost template packet), the template is finally fed to the first parser and the same data bytes are replayed again. Oracle per call: reference decode under the per-parser model; a V9 packet containing data for an id absent from that parser's model must be the final Error element (the templates of complete flowsets before it are learned, nothing else); an IPFIX message must be reported without any set of that id - either the library's documented behaviour (decoding of the message stops there) or skipping just that set is accepted, the cache model follows whichever was observed; caches equal the model after every call; all other packets and sets must equal the reference decode; after delivery of the template the replayed bytes must decode to exactly the reference records. non-trivial = an unknown-id flowset occurred and (an earlier packet precedes it in the buffer, or X exists in the other protocol / other parser, or the template arrived later and the data was replayed and decoded); distinct by digest.",
+    rule: "cases = conformant histories (C04/C05 plans, V9 count = flowsets, 1..3 packets per call) in which the template of one (protocol, id) X is withheld: every template record for X is removed while its data sets are still encoded under X's first definition, at whatever position the plan puts them (first/middle/last flowset of a packet, first/middle/last packet of a buffer, with template flowsets for other ids around); ids are shared between V9 and IPFIX so X is usually defined for the other protocol. Then: the template is fed to a second parser instance only, the data packet is replayed to the first parser (still unknown there; in one case out of six it is replayed 2..6 times, in one out of fifty 70..300 times in a row - a lost template packet), the template is finally fed to the first parser and the same data bytes are replayed again; in one case out of four the template is then removed from the parser's public cache maps (the documented way for an application to drop templates) and the data is replayed a last time - unknown again. Oracle per call: reference decode under the per-parser model; a V9 packet containing data for an id absent from that parser's model must be the final Error element (the templates of complete flowsets before it are learned, nothing else); an IPFIX message must be reported without any set of that id - either the library's documented behaviour (decoding of the message stops there) or skipping just that set is accepted, the cache model follows whichever was observed; caches equal the model after every call; all other packets and sets must equal the reference decode; after delivery of the template the replayed bytes must decode to exactly the reference records. non-trivial = an unknown-id flowset occurred and (an earlier packet precedes it in the buffer, or X exists in the other protocol / other parser, or the template arrived later and the data was replayed and decoded); distinct by digest.",
     assumptions: &["for IPFIX both 'stop at the undecodable set' (current, documented in the property's anchors) and 'skip only that set' are accepted as omitting the set"],
 };
 
@@ -47,6 +47,22 @@ pub fn oracle(case: &Case) -> Outcome {
     // (proto, id) -> bytes of an atom that carried unknown data for it on parser 0
     let mut pending: Vec<(Proto, u16, Vec<u8>)> = vec![];
     for (ci, c) in case.calls.iter().enumerate() {
+        if case.params.get("forget_before_call") == Some(&(ci as i64)) {
+            // the application drops template X through the documented public cache fields:
+            // from here on the parser holds no template for X again
+            let id = case.param("forget_id") as u16;
+            let p0 = &mut parsers[0];
+            if case.param("forget_proto") == 9 {
+                p0.v9_parser.templates.remove(&id);
+                p0.v9_parser.options_templates.remove(&id);
+                models[0].v9.remove(&id);
+            } else {
+                p0.ipfix_parser.templates.remove(&id);
+                p0.ipfix_parser.options_templates.remove(&id);
+                models[0].ipfix.remove(&id);
+            }
+            o.label("template-removed-through-the-public-cache-fields");
+        }
         let buf = c.buf();
         let res = parsers[c.parser].parse_bytes(&buf);
         let pi = c.parser;
@@ -357,11 +373,21 @@ pub fn assemble(
                     out.push(Call { parser: 0, packets: vec![dpk.clone()] });
                 }
                 out.push(Call { parser: 0, packets: vec![dpk.clone()] });
+                let mut params: std::collections::BTreeMap<String, i64> = Default::default();
                 if !header_only {
                     // (a data set without records has no conformant reading once X is known)
                     out.push(Call { parser: 0, packets: vec![tp.0] });
-                    out.push(Call { parser: 0, packets: vec![dpk] });
+                    out.push(Call { parser: 0, packets: vec![dpk.clone()] });
+                    if where_atom % 4 == 0 {
+                        // ... and finally the application removes X from the public cache maps
+                        // and the data arrives once more: unknown again
+                        params.insert("forget_before_call".into(), out.len() as i64);
+                        params.insert("forget_id".into(), id as i64);
+                        params.insert("forget_proto".into(), if is_v9 { 9 } else { 10 });
+                        out.push(Call { parser: 0, packets: vec![dpk] });
+                    }
                 }
+                return Case { allowed: vec![crate::engine::DEFAULT_ALLOWED.to_vec(); 2], calls: out, params };
             }
             Case { allowed: vec![crate::engine::DEFAULT_ALLOWED.to_vec(); 2], calls: out, params: Default::default() }
         }
